@@ -24,6 +24,9 @@ type Instance struct {
 	C      int      `json:"C"`
 	Cancel bool     `json:"cancel"`
 	Order  []string `json:"order"` // e.g. ["I1","A1","X","C1","I2","A2"]; X = parent cancel
+	// Errs: ingress ids whose item is unusual: "connErr" = IngressConn(conn, err) with BOTH a live connection and an
+	// error, "nilErr" = IngressConn(nil, err) (no connection at all)
+	Errs   map[string]string `json:"errs"`
 	Via    []int    `json:"via"`    // ingress ids that arrive through an attached source listener (IngressListener) instead of IngressConn
 	Settle int      `json:"settle"` // microseconds to wait after starting each op (0: none, stress)
 	Seed   int64    `json:"seed"`
@@ -160,11 +163,27 @@ func Run(in Instance, _ int64) ([]Line, error) {
 				src.ch <- c // the connection arrives on the source listener
 				break
 			}
-			rec.emit("IngressStart", id, 0, "")
-			start(op, func() {
-				ln.IngressConn(c, nil)
-				rec.emit("IngressEnd", id, 0, "")
-			})
+			switch in.Errs[fmt.Sprint(id)] {
+			case "nilErr":
+				// an item without any connection: nothing to account for, but it must not upset anything else
+				rec.emit("NilIngressStart", id, 0, "")
+				start(op, func() {
+					ln.IngressConn(nil, errors.New("ingressed error without a connection"))
+					rec.emit("NilIngressEnd", id, 0, "")
+				})
+			case "connErr":
+				rec.emit("IngressStart", id, 0, "connErr")
+				start(op, func() {
+					ln.IngressConn(c, errors.New("ingressed error alongside a live connection"))
+					rec.emit("IngressEnd", id, 0, "")
+				})
+			default:
+				rec.emit("IngressStart", id, 0, "")
+				start(op, func() {
+					ln.IngressConn(c, nil)
+					rec.emit("IngressEnd", id, 0, "")
+				})
+			}
 		case 'A':
 			id := n
 			rec.emit("AcceptStart", id, 0, "")
@@ -172,12 +191,13 @@ func Run(in Instance, _ int64) ([]Line, error) {
 				got, err := ln.Accept()
 				res := -3
 				switch {
-				case err != nil && errors.Is(err, net.ErrClosed):
-					res = -1
-				case err == nil && got != nil:
+				case got != nil:
+					// a connection was handed out (possibly together with the error it was ingressed with)
 					if ic, ok := got.(*conn); ok {
 						res = ic.id
 					}
+				case err != nil && errors.Is(err, net.ErrClosed):
+					res = -1
 				}
 				rec.emit("AcceptEnd", id, res, "")
 			})
